@@ -289,12 +289,9 @@ func (p *TracerProvider) Shutdown(ctx context.Context) error {
 
 	var retErr error
 	for _, sps := range p.getSpanProcessors() {
-		select {
-		case <-ctx.Done():
-			return ctx.Err()
-		default:
-		}
-
+		// Every processor is shut down even if ctx is already done: the
+		// provider is marked as shut down and will never get to them again.
+		// Each processor honors ctx in its own Shutdown.
 		var err error
 		sps.state.Do(func() {
 			err = sps.sp.Shutdown(ctx)
